@@ -120,7 +120,7 @@ func checkC12(c *Ctx) {
 			assume := func(p *core.Path, cond ssa.Value, term string) (bool, bool) {
 				// scenario: the dispatched packet is a *packet.PingReq
 				if ex, ok := cond.(*ssa.Extract); ok && ex.Index == 1 {
-					if ta, ok := ex.Tuple.(*ssa.TypeAssert); ok && pktIdx >= 0 && core.Strip(ta.X) == ssa.Value(disp.Params[pktIdx]) {
+					if ta, ok := ex.Tuple.(*ssa.TypeAssert); ok && pktIdx >= 0 && same(ta.X, disp.Params[pktIdx]) {
 						return isNamed(ta.AssertedType, pkgPacket, "PingReq"), true
 					}
 				}
@@ -301,7 +301,7 @@ func checkC13(c *Ctx) {
 					continue
 				}
 				w := tp.wills[0]
-				okArgs := core.Strip(tp.p.Resolve(core.Strip(w.Arg(1)))) == ssa.Value(td.fn.Params[td.sessIdx])
+				okArgs := same(tp.p.Resolve(core.Strip(w.Arg(1))), td.fn.Params[td.sessIdx])
 				if k, ok := tp.p.Resolve(w.Arg(2)).(*ssa.Const); !ok || k.Value != nil {
 					okArgs = false
 				}
@@ -407,7 +407,7 @@ func checkC13(c *Ctx) {
 					arm := "?"
 					for _, cc := range controllingConds(b, nil) {
 						if ex, ok := cc.cond.(*ssa.Extract); ok && ex.Index == 1 && cc.pol {
-							if ta, ok := ex.Tuple.(*ssa.TypeAssert); ok && pktIdx >= 0 && core.Strip(ta.X) == ssa.Value(disp.Params[pktIdx]) {
+							if ta, ok := ex.Tuple.(*ssa.TypeAssert); ok && pktIdx >= 0 && same(ta.X, disp.Params[pktIdx]) {
 								arm = types.TypeString(ta.AssertedType, func(p *types.Package) string { return p.Name() })
 							}
 						}
